@@ -138,10 +138,15 @@ class TensorNetwork:
                 sort_indices[ax] = c
                 c += 1
         assert c == tree.ndim
-        tree.permute_axes(np.argsort(sort_indices))
+        perm = np.argsort(sort_indices)
+        tree.permute_axes(perm)
         axes_map = [sort_indices[k] for k in axes_map]
         # perform contraction
         tensor_dict = { tensor.tid: self.data[tensor.dataref] for tensor in self.net.tensors.values() if tensor.tid != -1 }
+        if tree.is_leaf:
+            # permuting the axes of a leaf node only relabels it;
+            # the tensor it refers to has to be transposed accordingly
+            tensor_dict[tree.tid] = np.transpose(tensor_dict[tree.tid], perm)
         cnt = perform_tree_contraction(tree, tensor_dict)
         # return contracted tensor, axes map and tree
         return cnt, axes_map, tree
